@@ -5,6 +5,7 @@ import (
 	"errors"
 	"fmt"
 	"sync"
+	"time"
 
 	"github.com/gorilla/websocket"
 	"pgregory.net/rapid"
@@ -320,6 +321,39 @@ func checkC19(c PrepCase, o *Obs) error {
 	}
 	if firstErr != nil {
 		return firstErr
+	}
+	if !c.Conc {
+		// Epilogue, per connection still open: a prepared message is sent under
+		// the connection's write deadline like a direct one, and after a transport
+		// failure during a prepared send the connection is as dead as after a
+		// failed WriteMessage.
+		for i, st := range conns {
+			if st.closed {
+				continue
+			}
+			st.conn.SetWriteDeadline(time.Now().Add(time.Hour))
+			nodl := st.tr.WritesNoDeadline
+			if err := st.conn.WritePreparedMessage(pm); err != nil {
+				return fmt.Errorf("conn %d: prepared send under a write deadline an hour away failed: %v", i, err)
+			}
+			if st.tr.WritesNoDeadline != nodl {
+				return fmt.Errorf("conn %d: the prepared message was written with no write deadline armed on the transport although SetWriteDeadline had been called: WriteMessage applies the deadline to every frame", i)
+			}
+			if c.MT == 8 {
+				continue
+			}
+			st.tr.SetWriteFault(&xport.WriteFault{K: 1, Kind: []string{xport.FaultError, xport.FaultShort, xport.FaultTimeout}[i%3]}) // operation 0 is the deadline call, 1 the Write
+			if err := st.conn.WritePreparedMessage(pm); err == nil {
+				return fmt.Errorf("conn %d: the transport failed during a prepared send, WritePreparedMessage returned nil", i)
+			}
+			before := len(st.tr.Wrote)
+			err2 := st.conn.WritePreparedMessage(pm)
+			err3 := st.conn.WriteMessage(websocket.TextMessage, []byte("x"))
+			if err2 == nil || err3 == nil || len(st.tr.Wrote) != before || len(st.tr.AfterFault) > 0 {
+				return fmt.Errorf("conn %d: after a transport failure during a prepared send, a second prepared send returned %v, WriteMessage %v, and %d more bytes were handed to the transport: a failed prepared send ends the connection's write side like a failed WriteMessage", i, err2, err3, len(st.tr.Wrote)-before+len(st.tr.AfterFault))
+			}
+		}
+		o.Class("epilogue_deadline_and_fault")
 	}
 	if c.Conc {
 		if rep, grew := raceLogGrew(); grew {
